@@ -420,6 +420,16 @@ def build_pool(rng):
         for c_ in (da, db):
             ops.append(dict({"k": "lint", "f": d, "ref": None, "cur": c_, "extra": ["android-dtd"],
                              "fam": "rep:dtd"}, **extra))
+    for x in ({"set": []}, [], {"set": ["android-dtd"]}, None):
+        for r_, l_ in ((da, da), (da, db), (db, db)):
+            ops.append({"k": "compare", "f": d, "ref": r_, "l10n": l_, "extra": x, "merge": False,
+                        "fam": "rep:dtd"})
+        ops.append({"k": "lint", "f": d, "ref": None, "cur": da, "extra": x, "fam": "rep:dtd"})
+    # the other checkers with the empty set the pipeline passes for ordinary paths
+    for fmt, (alt, ref_t, l10n_t) in sorted(FINDINGS.items()):
+        f = FMT.index(fmt)
+        ops.append({"k": "compare", "f": f, "ref": texts[f].index(ref_t), "l10n": texts[f].index(l10n_t),
+                    "extra": {"set": []}, "merge": False, "fam": "rep:" + fmt})
     # zero-byte files and files holding only a newline, read through readFile, in every role, next to
     # non-empty files of the same format; lint with a reference path that does not exist
     for f in range(7):
@@ -569,6 +579,15 @@ def dispatch(name):
     return NOPARSER
 
 
+def extra_of(spec):
+    """extra_tests of the checker: None / list / {"set": [...]} for a set (ProjectFiles annotates
+    every path with set(paths.get("test", [])): an EMPTY SET for ordinary files)"""
+    x = spec.get("extra")
+    if isinstance(x, dict):
+        return set(x["set"])
+    return x
+
+
 def name_of(spec):
     return spec.get("name") or FILE[spec["f"]]
 
@@ -686,7 +705,7 @@ def exec_op(proc, spec, texts, keep):
             cc = ContentComparer()
             cc.observers.append(Observer())
             cc.compare(File(refp, "sub/" + name), File(l10p, "sub/" + name, locale=spec.get("loc", "de")),
-                       mergep, spec["extra"])
+                       mergep, extra_of(spec))
             merged = None
             if mergep and os.path.exists(mergep):
                 merged = open(mergep, encoding="utf-8", newline="").read()
@@ -713,7 +732,7 @@ def exec_op(proc, spec, texts, keep):
 
         def go():
             # the public entry: files without a parser are skipped
-            return list(L10nLinter().lint([curp], lambda path: (refp, spec["extra"])))
+            return list(L10nLinter().lint([curp], lambda path: (refp, extra_of(spec))))
         return canon_tmp(guarded(go), proc.tmp), None
     if k == "merge":
         from compare_locales.merge import merge_channels
@@ -1220,8 +1239,14 @@ def union_suite(chk, rng, model, prefix=(), texts=None, u=0):
         pairs.append((fmt, render(fmt, recs, rng, junk=0.2), {
             "de": render(fmt, derive(rng, recs), rng, junk=0.4),
             "fr": render(fmt, derive(rng, recs), rng, junk=0.4)}))
+    # a DTD whose path is annotated test = ["android-dtd"] (unescaped apostrophes and quotes), next
+    # to the ordinary DTD above, whose checker gets the empty set
+    pairs.append(("dtd+android", '<!ENTITY a "it\'s fine">\n<!ENTITY b "plain">\n',
+                  {"de": '<!ENTITY a "c\'est &quot;bon&quot;">\n<!ENTITY b "l\'autre">\n',
+                   "fr": '<!ENTITY a "ok">\n<!ENTITY b "d\'accord">\n'}))
     n = len(pairs)
-    ext = {"properties": "properties", "dtd": "dtd", "ftl": "ftl", "inc": "inc", "ini": "ini", "po": "po"}
+    ext = {"properties": "properties", "dtd": "dtd", "ftl": "ftl", "inc": "inc", "ini": "ini", "po": "po",
+           "dtd+android": "dtd"}
     perms = [list(range(n)), list(reversed(range(n)))]
     for _ in range(chk.n(4, 12)):
         p = list(range(n))
@@ -1341,6 +1366,10 @@ def union_job(pairs, ext, jb, prefix=(), texts=None):
         pc = ProjectConfig(None)
         pc.set_locales(["de", "fr"])
         pc.add_paths({"l10n": tmp + "/l10n/{locale}/**", "reference": tmp + "/en-US/**"})
+        for name, c in names.items():
+            if pairs[c][0].endswith("+android"):
+                pc.add_paths({"l10n": tmp + "/l10n/{locale}/" + name, "reference": tmp + "/en-US/" + name,
+                              "test": ["android-dtd"]})
         obs = compareProjects([pc], ["de", "fr"], tmp + "/l10n")
         by_content = {}
         # details per (content, locale): walk the tree
